@@ -196,6 +196,29 @@ def run(ctx):
             return "wrap_as_signable does not isolate the envelope from the payload: %s" % wire.dec(io[1:])[0]
         return None
     core.run_stream(ctx, core.Stream("wrap_as_signable, then writes through every container of the original / of the envelope", wcases, lambda c, io, mo: None, wrap_oracle, model=False))
+    # the wall clock is not an argument: the same call under two clocks (1990 and 2900) on metadata whose timestamps and expirations
+    # lie before, between and after them
+    ccases = []
+    for ts, ex in (("1980-01-01T00:00:00Z", "1985-01-01T00:00:00Z"), ("2500-06-01T12:00:00Z", "2501-06-01T12:00:00Z"), ("1980-01-01T00:00:00Z", "2500-01-01T00:00:00Z"),
+                   ("2950-01-01T00:00:00Z", "2960-01-01T00:00:00Z"), ("2500-01-01T00:00:00Z", "1980-01-01T00:00:00Z")):
+        T = M.envelope(M.root_md(1, (0, 1), 1, timestamp=ts, expiration=ex), (0,))
+        U = M.envelope(M.root_md(2, (0, 1), 1, timestamp=ts, expiration=ex), (0, 1))
+        K = M.envelope(M.md("key_mgr", 1, {"pkg_mgr": M.delegation((2,), 1)}, timestamp=ts, expiration=ex), (4,), mode="raw")
+        B = M.envelope(M.md("root", 1, {}, timestamp=ts, expiration=ex), (4,), mode="raw")       # declares another type than the role it is offered for
+        for fn, args in (("verify_root", [T, U]), ("verify_delegation", ["key_mgr", K, T, False]), ("verify_delegation", ["key_mgr", B, T, False]),
+                         ("verify_delegation", ["root", U, T, True]), ("checkformat_delegating_metadata", [T]), ("checkformat_utc_isoformat", [ts]),
+                         ("verify_signable", [K, [PUBHEX[4]], 1, False])):
+            ccases.append({"w": wire.case("clock_pair", fn, args), "meta": {"fn": fn}})
+
+    def clock_oracle(c, io):
+        if not io.startswith("O"):
+            return "the clock harness failed: %s" % io[:80]
+        a, b = wire.dec(io[1:])
+        if a != b:
+            return "the outcome of %s on the same arguments depends on the wall clock: %s in 1990, %s in 2900" % (c["meta"]["fn"], a, b)
+        return None
+    core.run_stream(ctx, core.Stream("the same verification calls under two wall clocks (datetime.now / utcnow / today / time.time patched package-wide)", ccases,
+                                     lambda c, io, mo: None, clock_oracle, model=False))
     ctx.kernel_sample = ctx.kernel_sample[:6]
     ctx.assumptions = ["thread interleavings are sampled (8 threads, switch interval 1e-6 s), not enumerated; the theorems cannot exhibit CPython-internal interleavings",
                        "alias classification of store sites is the translator's (trusted); calls into json / cryptography / hashlib are assumed not to modify their arguments"]
